@@ -279,9 +279,12 @@ func c10Worker(c *mc.Ctx) {
 		lf = append(lf, lfam{name, r.Size(), r.Get, limit, anySpec})
 	}
 	if c.Quick() {
+		// single rules up to size 3: nested repetitions (epsilon cycles in the NFA) appear here
+		rs("r1-s3", &lexref.RuleSets{Pools: []*lexref.Pool{p3}, Kinds: 2}, 0)
 		rs("r2-s2", &lexref.RuleSets{Pools: []*lexref.Pool{p2, p2}, Kinds: 2}, 0)
 		rs("r3-s1", &lexref.RuleSets{Pools: []*lexref.Pool{p1, p1, p1}, Kinds: 2}, 0)
 	} else {
+		rs("r1-s5", &lexref.RuleSets{Pools: []*lexref.Pool{lexref.NewPool(leaves, cards, 5)}, Kinds: 2}, 60000)
 		rs("r2-s3", &lexref.RuleSets{Pools: []*lexref.Pool{p3, p3}, Kinds: 2}, 300000)
 		rs("r3-s2s1", &lexref.RuleSets{Pools: []*lexref.Pool{p2, p2, p1}, Kinds: 2}, 300000)
 	}
